@@ -58,7 +58,9 @@ def project_session(cmd, obs, si, walk):
     events = []
     sink = obs["sink"]
     hlen = obs["build"].get("sink_len", 0)
-    events.append({"ev": "w_build", "si": si, "codec": T(cmd["codec"]), "sync": cmd["sync"], "meta": cmd.get("meta", []),
+    # (with "random_sync" the marker is whatever the library generated: the one the header ends with; every block must repeat it)
+    events.append({"ev": "w_build", "si": si, "codec": T(cmd["codec"]), "sync": sink[hlen - 16:hlen] if cmd.get("random_sync") and hlen >= 16 else cmd["sync"],
+                   "meta": cmd.get("meta", []),
                    "schema_json": obs["schema_json"], "header": sink[:hlen], "res": obs["build"]["res"],
                    "json_nodes": obs.get("schema_json_nodes", [])})
     blocks = walk["blocks"]
@@ -76,6 +78,8 @@ def project_session(cmd, obs, si, walk):
         ev["hs"] = st["hs"] if isinstance(st.get("hs"), list) else [-1]      # hook state of the writer after the call (absent: writer closed / hooks off)
         if op["op"] == "serialize":
             ev["pres"] = op["pres"]
+        if op["op"] == "serialize_all":
+            ev["pres_list"] = op["pres_list"]
         if op["op"] == "push":
             ev["bytes"] = op["bytes"]
             ev["n"] = op["n"]
